@@ -19,7 +19,7 @@ Not decided: termination of recursion / stack depth in general; panics inside pe
 """
 import re
 
-from .. import mir, e1_panic as e1, e2_grammar as e2, discharge
+from .. import mir, e1_panic as e1, e2_grammar as e2, discharge, premises
 from ..common import CallGraph, table, is_derive, site_in_derive
 from ..engine import Result, ok, finding, assumption, where
 from ..facts import BrokenCheck
@@ -187,6 +187,8 @@ def panic_obligations(F, res, roots, prop_rows, cg=None, grammar=None, crates=No
     reach, n_fns, sites = e1.inventory(F, cg, roots, crates=crates)
     G, it = grammar if grammar else (None, None)
     rows = {r["key"]: r["reason"] for r in prop_rows}
+    row_prems = {r["key"]: r.get("premises") for r in prop_rows if r.get("premises")}
+    prem_cache = {}
     used_rows = set()
     tc = TextCtx(F, it, G) if it else None
     as_str_rules = collect_as_str(F, it) if it else {}
@@ -234,9 +236,19 @@ def panic_obligations(F, res, roots, prop_rows, cg=None, grammar=None, crates=No
                 by = ex(s)
                 if by:
                     break
+        row_broken = None
         if by is None and key in rows:
-            by = "D-TABLE: " + rows[key]
             used_rows.add(key)
+            if key in row_prems:
+                if key not in prem_cache:
+                    prem_cache[key] = premises.check_all(F, row_prems[key])
+                good, why = prem_cache[key]
+                if good:
+                    by = "D-TABLE: " + rows[key] + " [premises re-checked: " + why + "]"
+                else:
+                    row_broken = why
+            else:
+                by = "D-TABLE: " + rows[key]
         if by:
             res.add([ok(rule, key, w, by)])
         else:
@@ -244,6 +256,8 @@ def panic_obligations(F, res, roots, prop_rows, cg=None, grammar=None, crates=No
                     "K3": "`%s` check can fail (debug builds panic; release builds wrap)" % s.what,
                     "K4": "`%s` can panic on its argument" % s.what.split("::<")[0][-70:]}[s.kind]
             path = cg.path_to(roots, p)
+            if row_broken:
+                what += " - the reviewed row that discharged this site no longer holds: " + row_broken + " -"
             res.add([finding(rule, key, w, "%s in %s (reached via %s)" % (what, p, " -> ".join(x.split("::")[-1] if not x.startswith("<") else x.split(" as ")[0][1:].split("::")[-1] + "::" + x.split("::")[-1] for x in (path or [p])[-4:])))])
     res.count("functions in closure", n_fns)
     res.count("panic sites", n_sites)
